@@ -207,7 +207,7 @@ fn inner(case: &C10Case, o: &mut Outcome) -> Result<(), (String, String)> {
                     o.label("sign-then-clear");
                 }
             }
-            Op::Reparse => {}
+            _ => {}
         }
     }
     if nontrivial {
@@ -218,7 +218,7 @@ fn inner(case: &C10Case, o: &mut Outcome) -> Result<(), (String, String)> {
         apply_op(&mut pkg, op)?;
         model = match op {
             Op::Sign(k) | Op::SignNow(k) => Signer::Key(*k as usize % 4),
-            Op::Clear => Signer::None,
+            Op::Clear | Op::ClearSigInPlace | Op::EmptySig => Signer::None,
             Op::Reparse => model,
         };
         check_state(&pkg, model, &start_header, &start_content, &format!("after step {i} ({op:?}) of {:?}", case.ops))?;
